@@ -53,13 +53,28 @@ void initialize(econf_file *key_file, size_t num) {
 char *get_absolute_path(const char *path, econf_err *error) {
   char *absolute_path;
   if(*path != '/') {
+    /* Only the directory is resolved. The name of the file itself has to
+       stay even if it is a symbolic link: files are identified by it. */
     char buffer[PATH_MAX];
-    if(!realpath(path, buffer)) {
+    char *dir = strdup(path);
+    if (dir == NULL) {
+      if (error)
+	*error = ECONF_NOMEM;
+      return NULL;
+    }
+    char *name = strrchr(dir, '/');
+    if (name != NULL)
+      *name++ = '\0';
+    if(!realpath(name != NULL ? dir : ".", buffer)) {
+      free(dir);
       if (error)
 	*error = ECONF_NOFILE;
       return NULL;
     }
-    absolute_path = strdup(buffer);
+    if (asprintf(&absolute_path, "%s/%s", buffer,
+		 name != NULL ? name : path) < 0)
+      absolute_path = NULL;
+    free(dir);
   } else {
     absolute_path = strdup(path);
   }
